@@ -127,7 +127,10 @@ def run_property(prop, rule_mod, repo='/repo', tier='quick', replay=None):
     """Run one property's rules; print report; write evidence; return exit code."""
     t0 = time.time()
     seed = int(os.environ.get('VERIF_SEED', '0') or 0)
-    ev_path = os.path.join(VERIF, 'evidence', prop + '.json')
+    # scratch runs of the validation tools (tools/*_scratch.sh) redirect their evidence so that they never race with,
+    # or overwrite, the evidence of a run against /repo itself
+    ev_dir = os.environ.get('VERIF_EVIDENCE_DIR') or os.path.join(VERIF, 'evidence')
+    ev_path = os.path.join(ev_dir, prop + '.json')
     os.makedirs(os.path.dirname(ev_path), exist_ok=True)
     ctx = None
     try:
@@ -173,7 +176,7 @@ def run_property(prop, rule_mod, repo='/repo', tier='quick', replay=None):
     if new:
         for o in new:
             print('  %s  %s  %s' % (_loc_str(o.loc), o.key, o.msg))
-        rp = os.path.join(VERIF, 'evidence', 'replay', prop + '.json')
+        rp = os.path.join(ev_dir, 'replay', prop + '.json')
         os.makedirs(os.path.dirname(rp), exist_ok=True)
         with open(rp, 'w') as f:
             json.dump({'property': prop, 'keys': sorted({o.key for o in new}),
